@@ -521,7 +521,7 @@ def part_from_matchfile(
         # measure, add a rest (dummy)
         # if starting beat is above zero, add padding
         rest = score.Rest()
-        part.add(rest, start=0, end=t * divs)
+        part.add(rest, start=0, end=int(round(t * divs)))
         onset_in_divs += t * divs
         offset = 0
         t = t - t % beats_map(min_time)
@@ -586,7 +586,7 @@ def part_from_matchfile(
             warnings.warn(
                 "Calculated `onset_divs` does not match `OnsetInBeats` " "information!."
             )
-            onset_divs = onset_in_divs[ni]
+            onset_divs = int(round(onset_in_divs[ni]))
         assert onset_divs >= 0
         assert np.isclose(onset_divs, onset_in_divs[ni], atol=divs * 0.01)
         is_tied = False
